@@ -393,7 +393,7 @@ impl Prop for C19 {
         "metamorphic: one application payload (request of every protocol generator, byte-mutated requests, hostile STUN TLV lists, random bytes) sent with the transport held fixed (UDP datagram, or first segment of a handshaken TCP flow) in two contexts that differ in source/destination ports only (incl. 0, 53, 80, 111, 445, 3478, 65535), in IP version and addresses only, or in both; with no self-IP list or one that holds the contexts' server addresses (optionally more addresses of one family than of the other); a share of the contexts has source port = destination port and / or client address = server address. Oracle: answered in both contexts or in neither; same responder (independent classifier); reply source port at the same offset from the destination port; application replies equal after structural masking of exactly the listed exceptions — STUN MAPPED-ADDRESS value, successful portmapper bodies (GETPORT / GETADDR: the port / universal address; DUMP: parsed entry by entry, only port / address masked and netids reduced to their transport), DNS A RDATA and its length, HTTP Date and SMB times. Non-trivial = answered in both contexts; distinct by hash of (payload, contexts)."
     }
     fn run(&self, ctx: &mut RunCtx) {
-        let n = ctx.share(ctx.tier.n(600_000, 8_000_000));
+        let n = ctx.share(ctx.tier.n(2_000_000, 16_000_000));
         ctx.run_generated("where", n, case_strategy(), check);
         // exhaustive: every destination port and every source port for each golden request
         let ng = goldens().len();
